@@ -114,7 +114,7 @@ def gaussian_logpdf(ctype, D=2, N=2):
     return rel_instance('log_pdf-%s' % ctype, DN + 'gaussian:%s.log_pdf' % cls, make_full, call, patches=stubs.make_gaussian_patches)
 
 
-def gaussian_fit(ctype, D=2, N=3):
+def gaussian_fit(ctype, D=2, N=3, nosal=False):
     from pb_bss.distribution import gaussian as g
 
     def make_full(B):
@@ -122,13 +122,13 @@ def gaussian_fit(ctype, D=2, N=3):
         return {'y': B.real('y', (L, N, D)), 'sal': sal}
 
     def call(a):
-        return g.GaussianTrainer().fit(a['y'], saliency=a['sal'], covariance_type=ctype)
+        return g.GaussianTrainer().fit(a['y'], saliency=None if nosal else a['sal'], covariance_type=ctype)
 
-    return rel_instance('fit-%s' % ctype, DN + 'gaussian:GaussianTrainer.fit', make_full, call, patches=stubs.make_gaussian_opaque_patches,
+    return rel_instance('fit-%s%s' % (ctype, '-nosal' if nosal else ''), DN + 'gaussian:GaussianTrainer.fit', make_full, call, patches=stubs.make_gaussian_opaque_patches,
                         fields=['mean', 'covariance'])
 
 
-def ccsg_both(D=2, N=2):
+def ccsg_both(D=2, N=2, nosal=False):
     from pb_bss.distribution import complex_circular_symmetric_gaussian as m
 
     def make_full(B):
@@ -136,13 +136,13 @@ def ccsg_both(D=2, N=2):
 
     def call(a):
         return {'log_pdf': m.ComplexCircularSymmetricGaussian(covariance=a['cov']).log_pdf(a['y']),
-                'fit': m.ComplexCircularSymmetricGaussianTrainer().fit(a['y'], saliency=a['sal']).covariance}
+                'fit': m.ComplexCircularSymmetricGaussianTrainer().fit(a['y'], saliency=None if nosal else a['sal']).covariance}
 
-    return rel_instance('log_pdf+fit', DN + 'complex_circular_symmetric_gaussian:ComplexCircularSymmetricGaussian', make_full, call,
+    return rel_instance('log_pdf+fit' + ('-nosal' if nosal else ''), DN + 'complex_circular_symmetric_gaussian:ComplexCircularSymmetricGaussian', make_full, call,
                         patches=lambda: [(symnp.SolveStub, 'fork_singular', False)])
 
 
-def vmf_both(D=2, N=2):
+def vmf_both(D=2, N=2, nosal=False):
     from pb_bss.distribution import von_mises_fisher as m
     from scipy.special import ive as real_ive
 
@@ -161,13 +161,13 @@ def vmf_both(D=2, N=2):
         k = a['kappa']
         if not hasattr(k, 'shape') or (getattr(k, 'shape', None) == () and not isinstance(k, np.ndarray)):
             k = np.asarray(k) if not isinstance(k, (S.R,)) else k
-        f = m.VonMisesFisherTrainer().fit(a['y'], saliency=a['sal'])
+        f = m.VonMisesFisherTrainer().fit(a['y'], saliency=None if nosal else a['sal'])
         return {'log_pdf': m.VonMisesFisher(mean=a['mean'], concentration=k).log_pdf(a['y']), 'fit_mean': f.mean, 'fit_kappa': f.concentration}
 
-    return rel_instance('log_pdf+fit', DN + 'von_mises_fisher:VonMisesFisher', make_full, call, patches=patches, timeout=30.0)
+    return rel_instance('log_pdf+fit' + ('-nosal' if nosal else ''), DN + 'von_mises_fisher:VonMisesFisher', make_full, call, patches=patches, timeout=30.0)
 
 
-def watson_both(D=2, N=2):
+def watson_both(D=2, N=2, nosal=False):
     from pb_bss.distribution import complex_watson as m
     from scipy.special import hyp1f1 as real_h
     orig_inv = m.ComplexWatsonTrainer.hypergeometric_ratio_inverse
@@ -186,10 +186,10 @@ def watson_both(D=2, N=2):
                 'sal': B.real('s', (L, N), lo=0.0, lo_strict=True, dist=(0.2, 2.0))}
 
     def call(a):
-        f = m.ComplexWatsonTrainer(D).fit(a['y'], saliency=a['sal'])
+        f = m.ComplexWatsonTrainer(D).fit(a['y'], saliency=None if nosal else a['sal'])
         return {'log_pdf': m.ComplexWatson(mode=a['mode'], concentration=a['kappa']).log_pdf(a['y']), 'fit_mode': f.mode, 'fit_kappa': f.concentration}
 
-    return rel_instance('log_pdf+fit', DN + 'complex_watson:ComplexWatson', make_full, call, patches=patches, timeout=30.0)
+    return rel_instance('log_pdf+fit' + ('-nosal' if nosal else ''), DN + 'complex_watson:ComplexWatson', make_full, call, patches=patches, timeout=30.0)
 
 
 def cacg_both(D=2, N=2, iterations=2):
@@ -424,6 +424,12 @@ def instances(tier):
     out.append(ccsg_both())
     out.append(vmf_both())
     out.append(watson_both())
+    # the saliency=None branch of every trainer (its own normaliser: the number of observations of the slice)
+    for ct in ('full', 'diagonal', 'spherical'):
+        out.append(gaussian_fit(ct, nosal=True))
+    out.append(ccsg_both(nosal=True))
+    out.append(vmf_both(nosal=True))
+    out.append(watson_both(nosal=True))
     out.append(cacg_both(iterations=1))
     out.append(cacg_both(iterations=2))
     out.append(affiliation_rel())
